@@ -182,7 +182,10 @@ void ModeManifold(Tape& t, Outcome& o) {
     memcpy(&a, &lazyF[i + 2], sizeof a);
     memcpy(&b, &eagerF[i + 2], sizeof b);
     if (lazyF[i] == ~0ull) continue;  // triangulation-dependent value: not comparable across evaluation orders
-    if (lazyF[i] != eagerF[i] || lazyF[i + 1] != eagerF[i + 1] || std::abs(a - b) > 1e-7 * (1 + std::abs(a))) {
+    // IsEmpty() is compared only for solids with volume: two evaluation orders of an expression that denotes the
+    // empty set may legitimately leave a zero-volume skin in one of them (same solid, C03) and nothing in the other
+    const bool emptinessDiffers = lazyF[i + 1] != eagerF[i + 1] && (std::abs(a) > 1e-9 || std::abs(b) > 1e-9);
+    if (lazyF[i] != eagerF[i] || emptinessDiffers || std::abs(a - b) > 1e-7 * (1 + std::abs(a))) {
       o.fail("value:laziness-observable", verif::fmt("v%zu differs between the lazily and the eagerly observed run: status %d/%d volume %.12g/%.12g", i / 3, int(lazyF[i]), int(eagerF[i]), a, b));
       return;
     }
